@@ -134,7 +134,8 @@ def build(frag, solo=False, quiet=False):
     for fk in frag.get("fakes", []):
         fake_srcs += sorted(glob.glob(os.path.join(VERIF, "fakes", fk, "*.go")))
     key = sha_files(repo_go_files() + hfiles + [p for _, p in kfiles] + rw_srcs + fake_srcs,
-                    extra=json.dumps([pkg, mode, solo, frag.get("rewrite", {}), frag.get("extra_pkgs", []), frag.get("fakes", [])], sort_keys=True))[:20]
+                    extra=json.dumps([pkg, mode, solo, frag.get("rewrite", {}), frag.get("extra_pkgs", []), frag.get("fakes", []),
+                                      bool(os.environ.get("VERIF_COVER"))], sort_keys=True))[:20]
     tag = frag["harness"] + ("-solo-" + frag["property_id"] if solo else "")
     bindir = os.path.join(BUILD, "bin")
     os.makedirs(bindir, exist_ok=True)
@@ -206,6 +207,9 @@ def build(frag, solo=False, quiet=False):
     cmd = ["go", "test", "-c", "-vet=off", "-overlay", ovpath, "-o", binpath + ".tmp"]
     if mode == "shimrace" or frag.get("race"):
         cmd.append("-race")
+    if os.environ.get("VERIF_COVER"):
+        # development aid (tools/covergaps.py): which statements of the package does a check execute at all
+        cmd.append("-cover")
     cmd.append("./" + pkg if pkg else ".")
     r = subprocess.run(cmd, cwd=REPO, env=goenv(), capture_output=True, text=True)
     if r.returncode != 0 or not os.path.exists(binpath + ".tmp"):
@@ -243,6 +247,9 @@ def run(frag, tier, replay=None, solo=False):
         env.setdefault(k, str(v))
     timeout = frag.get("timeout_" + tier, 900 if tier == "quick" else 7200)
     cmd = [binpath, "-test.run", "^" + frag["test"] + "$", "-test.v", "-test.timeout", "0", "-test.count", "1"]
+    if os.environ.get("VERIF_COVER"):
+        os.makedirs(os.environ["VERIF_COVER"], exist_ok=True)
+        cmd += ["-test.coverprofile", os.path.join(os.environ["VERIF_COVER"], cid + frag.get("evidence_suffix", "") + ".cov")]
     t0 = time.time()
     viol = False
     summary = False
